@@ -35,9 +35,10 @@ LEVEL_TEXT = ('Exploration: seeded cases over CONNECT hosts (DNS names, punycode
               'on/off x per-request opt-out plugin on/off x request/response payloads (bodies to 300 KB, chunked, several '
               'requests per TLS session, TLS records of 1..n bytes) x cold/warm certificate cache. Judged by real TLS '
               'verification at the client, h11 at the origin plaintext, and byte equality of relayed responses.')
-LEVEL_NOTE = ('Trusted: OpenSSL (via the ssl module) as certificate verifier, h11, the harness PKI. Runs the '
-              'thread-per-connection mode in process; threadless/remote modes share the interception code path and are '
-              'covered for mode equivalence by C17. The missing Via field on intercepted requests is the known finding of '
+LEVEL_NOTE = ('Trusted: OpenSSL (via the ssl module) as certificate verifier, h11, the harness PKI. The case matrix runs the '
+              'thread-per-connection mode in process; live batches run the assembled product in threadless-local / remote / '
+              'threaded mode with several worker processes and N clients CONNECTing to a brand-new host at the same moment '
+              '(cross-process certificate generation). The missing Via field on intercepted requests is the known finding of '
               'C02 and is not judged here.')
 TECHNIQUE = 'runtime monitoring with real TLS peers: certificate verification result at the client, plaintext transcript at the TLS origin, relayed-bytes equality'
 RULE = ('case = (host kind, origin certificate situation, insecure flag, opt-out, payload shape, connection count); '
@@ -207,7 +208,153 @@ def connect_through_proxy(flags: Any, host: str, port: int) -> Tuple[socket.sock
     return a, work, th, head
 
 
+def tls_get_via(proxy_addr: Tuple[str, int], host: str, port: int, path: bytes, rid: bytes) -> Dict[str, Any]:
+    """One verifying client against a live proxy: CONNECT, TLS with CERT_REQUIRED + hostname check (trust = interception CA),
+    one GET.  Returns what happened."""
+    out: Dict[str, Any] = {'connect': b'', 'handshake': None, 'response': b''}
+    a = socket.socket(socket.AF_INET, socket.SOCK_STREAM)
+    a.settimeout(30)
+    try:
+        shim._orig_connect(a, proxy_addr)
+        target = host.encode() + b':%d' % port
+        a.sendall(b'CONNECT %s HTTP/1.1\r\nHost: %s\r\n\r\n' % (target, target))
+        head = b''
+        while b'\r\n\r\n' not in head:
+            d = a.recv(4096)
+            if not d:
+                break
+            head += d
+        out['connect'] = head
+        if not head.startswith(b'HTTP/1.1 200'):
+            return out
+        cctx = ssl.SSLContext(ssl.PROTOCOL_TLS_CLIENT)
+        cctx.check_hostname = True
+        cctx.verify_mode = ssl.CERT_REQUIRED
+        cctx.load_verify_locations(_P['ica'][1])
+        try:
+            t = cctx.wrap_socket(a, server_hostname=host)
+            out['handshake'] = 'ok'
+        except (ssl.SSLError, OSError) as e:
+            out['handshake'] = 'failed:%s:%s' % (type(e).__name__, getattr(e, 'verify_message', '') or getattr(e, 'reason', '') or str(e)[:60])
+            return out
+        t.sendall(b'GET %s HTTP/1.1\r\nHost: %s\r\nX-Req-Id: %s\r\n\r\n' % (path, host.encode(), rid))
+        rx = b''
+        t.settimeout(30)
+        try:
+            while True:
+                ms, err, _ = h11util.parse_responses(rx, [b'GET'], eof=False)
+                if err or any(m['complete'] for m in ms):
+                    break
+                d = t.recv(65536)
+                if not d:
+                    break
+                rx += d
+        except (ssl.SSLError, OSError):
+            pass
+        out['response'] = rx
+        try:
+            t.close()
+        except Exception:
+            pass
+    except (OSError, socket.timeout) as e:
+        out['error'] = repr(e)
+    finally:
+        try:
+            a.close()
+        except Exception:
+            pass
+    return out
+
+
+def run_live(case: Dict[str, Any]) -> Dict[str, Any]:
+    """The assembled product (threadless local / remote, several acceptors and workers) doing interception: for each of a
+    few brand-new hosts, N clients CONNECT at the same moment, so that several worker *processes* meet in the
+    certificate cache for the same host.  Every client must be presented a certificate it can verify and get its response."""
+    from rig import liverig
+    rng = random.Random('c11live:%s:%s' % (case['seed'], case['i']))
+    viol: List[Dict[str, Any]] = []
+    obs: Dict[str, int] = {}
+    inconclusive = None
+    mode = case['mode']
+    run_dir = env.workdir('c11', 'live-%d-%d' % (os.getpid(), case['i']))
+    certs = os.path.join(run_dir, 'gen')
+    os.makedirs(certs, exist_ok=True)
+    body = G.coded(b'L', 2000)
+    responses = {b'/cl': b'HTTP/1.1 200 OK\r\nContent-Length: %d\r\n\r\n' % len(body) + body}
+    hosts = ['livehost-%d-%d.test' % (case['i'], k) for k in range(case['hosts'])]
+    origins: List[TlsOrigin] = []
+    live = None
+    try:
+        mapping = {}
+        for h in hosts:
+            ip = '127.%d.%d.%d' % (rng.randint(1, 250), rng.randint(0, 250), rng.randint(2, 250))
+            o = TlsOrigin(ip, origin_leaf('good', h), responses)
+            o.start()
+            origins.append(o)
+            mapping[h] = ip
+        args = ['--ca-key-file', _P['ica'][0], '--ca-cert-file', _P['ica'][1], '--ca-signing-key-file', _P['sign_key'], '--ca-cert-dir', certs,
+                '--ca-file', _P['oca'][1], '--hostname', '127.0.0.1', '--port', '0', '--num-acceptors', str(case['acceptors']),
+                '--num-workers', str(case['workers']), '--log-level', 'CRITICAL']
+        args += {'threaded': ['--threaded'], 'local': ['--threadless', '--local-executor', '1'], 'remote': ['--threadless', '--local-executor', '0']}[mode]
+        live = liverig.Live(args, run_dir, resolver=mapping)
+        paddr = ('127.0.0.1', live.ready['port'])
+        for h, o in zip(hosts, origins):
+            results: List[Dict[str, Any]] = []
+            lock = threading.Lock()
+            barrier = threading.Barrier(case['clients'])
+
+            def one(k: int) -> None:
+                try:
+                    barrier.wait(10)
+                except threading.BrokenBarrierError:
+                    pass
+                r = tls_get_via(paddr, h, o.port, b'/cl', b'live%d' % k)
+                with lock:
+                    results.append(r)
+            ths = [threading.Thread(target=one, args=(k,)) for k in range(case['clients'])]
+            for t in ths:
+                t.start()
+            for t in ths:
+                t.join(120)
+            for r in results:
+                if 'error' in r:
+                    inconclusive = 'harness-socket: %s' % r['error'][:80]
+                    continue
+                detail = {'mode': mode, 'acceptors': case['acceptors'], 'workers': case['workers'], 'concurrent_clients': case['clients'],
+                          'host': h, 'connect': r['connect'][:60], 'handshake': r['handshake']}
+                if not r['connect'].startswith(b'HTTP/1.1 200') or r['handshake'] != 'ok':
+                    viol.append({'key': 'live-%s|concurrent-first-connects|client-cannot-verify-presented-certificate' % mode, 'detail': detail})
+                elif r['response'] != responses[b'/cl']:
+                    viol.append({'key': 'live-%s|concurrent-first-connects|response-not-relayed-intact' % mode,
+                                 'detail': dict(detail, diff=monitors.diff_streams(responses[b'/cl'], r['response']))})
+                else:
+                    obs['live_verified_handshakes'] = obs.get('live_verified_handshakes', 0) + 1
+            obs['live_hosts'] = obs.get('live_hosts', 0) + 1
+        down = live.shutdown()
+        if down.get('tag') == 'DOWN':
+            live.exit()
+    except liverig.LiveFailed as e:
+        inconclusive = 'driver-failed: %s' % str(e)[:200]
+    finally:
+        if live is not None:
+            live.kill()
+        for o in origins:
+            o.close()
+        shutil.rmtree(run_dir, ignore_errors=True)
+    obs['live_batches'] = 1
+    seen = set()
+    uniq = []
+    for v in viol:
+        if v['key'] not in seen:
+            seen.add(v['key'])
+            uniq.append(v)
+    return {'viol': uniq, 'nontrivial': True, 'inconclusive': inconclusive, 'sig': 'live/%s/%d/%d/%d' % (mode, case['acceptors'], case['workers'], case['clients']),
+            'obs': obs, 'sample': {'case': case}}
+
+
 def run_case(case: Dict[str, Any]) -> Dict[str, Any]:
+    if case.get('kind') == 'live':
+        return run_live(case)
     rng = random.Random('c11:%s:%s' % (case['seed'], case['i']))
     situation, insecure, optout, hostkind = case['situation'], case['insecure'], case['optout'], case['host']
     viol: List[Dict[str, Any]] = []
@@ -441,6 +588,10 @@ def cases(tier: str, seed: int):
     rng = random.Random('c11cases:%d' % seed)
     i = 0
     reps = 3 if tier == 'quick' else 30
+    for (mode, a, wk, cl) in ([('local', 2, 1, 6), ('remote', 2, 2, 8), ('threaded', 1, 1, 4)] if tier == 'quick' else
+                              [(m, a, wk, cl) for m in ('local', 'remote', 'threaded') for (a, wk) in ((1, 1), (2, 2), (4, 4)) for cl in (4, 12)]):
+        i += 1
+        yield {'seed': seed, 'i': i, 'kind': 'live', 'mode': mode, 'acceptors': a, 'workers': wk, 'clients': cl, 'hosts': 3 if tier == 'quick' else 6}
     for rep in range(reps):
         for hostkind in ['name', 'punycode', 'ipv4', 'ipv6']:
             for situation in SITUATIONS:
@@ -456,8 +607,10 @@ def cases(tier: str, seed: int):
                                'shared_cert': hostkind == 'name' and situation == 'good'}
 
 
+
+
 def floors(tier: str) -> Dict[str, int]:
-    return {'verified_handshakes': 60, 'refusals_checked': 45, 'optout_tunnels_checked': 30, 'responses_checked': 120,
+    return {'live_batches': 3, 'live_verified_handshakes': 30, 'verified_handshakes': 60, 'refusals_checked': 45, 'optout_tunnels_checked': 30, 'responses_checked': 120,
             'origin_requests_checked': 40, 'warm_cache_connections': 10, 'verified:name': 3, 'verified:punycode': 3,
             'shared_certificate_second_host_checked': 2, 'situation:self-signed': 5, 'situation:wrong-name': 5, 'situation:expired': 5, 'situation:untrusted-ca': 5}
 
